@@ -422,13 +422,13 @@ def safe_str(o: object) -> str:
 
     @param o: Any object.
     """
-    if isinstance(o, bytes):
-        # If o is bytes and seems to holds a utf-8 encoded string,
-        # convert it to str.
-        try:
+    try:
+        if isinstance(o, bytes):
+            # If o is bytes and seems to holds a utf-8 encoded string,
+            # convert it to str.
             return o.decode("utf-8")
-        except BaseException:
-            pass
+    except BaseException:
+        pass
     try:
         return str(o)
     except BaseException:
